@@ -787,6 +787,9 @@ class WorkerPool:
                 self.map_params = new_map_params
                 self._start_workers()
 
+            # Number the chunks of this call from zero, also when tasks were submitted with apply_async since the last call
+            self._worker_comms.reset_progress()
+
             # Create async result objects. The imap_iterator container will be used to store the results from the
             # workers. We can yield from that
             imap_iterator = UnorderedAsyncResultIterator(self._cache, n_tasks, timeout=task_timeout)
